@@ -413,7 +413,7 @@ def compare_build(chk, scs, build, tag, oracle_fn, accept, what, distinct, mode=
                           + json.dumps(desc, indent=1) + f"\nbuild: {tag}" + "\nreplay: echo '<scenario>' | harness/target/debug/eng_world\n")
             continue
         if not wm:
-            # spawn-linked thread-local scenario: oracle only
+            # (unused since the model covers the thread-local start order: with_model is always true)
             chk.count(pre + "oracle_only_linked")
             if len(ph) >= 3:
                 distinct.add(json.dumps([mode, view_str(vi)], sort_keys=True))
